@@ -12,7 +12,7 @@ def run_job(args):
     base, k, cases, par = args
     d = os.path.join(base, "w%d" % k); os.makedirs(d)
     jf = os.path.join(d, "job.json"); json.dump({"dir": os.path.join(d, "files"), "cases": cases}, open(jf, "w"))
-    env = dict(os.environ, PYTHONPATH="/repo", PYTHONDONTWRITEBYTECODE="1", JOBLIB_TEMP_FOLDER=d)
+    env = dict(os.environ, PYTHONPATH=os.environ.get("VERIF_REPO", "/repo"), PYTHONDONTWRITEBYTECODE="1", JOBLIB_TEMP_FOLDER=d)
     with open(os.path.join(d, "log"), "w") as lf:
         try: subprocess.run([PYVT, WORKER] + (["--parallel"] if par else []) + [jf], env=env, stdout=lf, stderr=lf, stdin=subprocess.DEVNULL, timeout=3000)
         except subprocess.TimeoutExpired: pass
